@@ -24,8 +24,15 @@ for name in sorted(os.listdir(sd)):
     out = subprocess.run([os.path.join(root, "tools_mutant.sh"), os.path.join(d, "patch.diff"), tier] + checks,
                          stdout=subprocess.PIPE, stderr=subprocess.STDOUT, text=True).stdout
     det = {}
-    for m in re.finditer(r"MUTANT (C\d+): exit=(\d+) violations=(\d+)", out):
-        det[m.group(1)] = {"exit": int(m.group(2)), "violation_lines": int(m.group(3)), "tier": tier}
+    if "patch does not apply" in out:
+        det[prop] = {"exit": 3, "note": "patch no longer applies to /repo HEAD"}
+    for m in re.finditer(r"MUTANT (C\d+)/(\w+): exit=(\d+) violations=(\d+)", out):
+        e = det.setdefault(m.group(1), {"exit": 0, "violation_lines": 0, "tier": tier, "groups": {}})
+        code = int(m.group(3))
+        e["groups"][m.group(2)] = code
+        e["violation_lines"] += int(m.group(4))
+        if code == 1 or (code != 0 and e["exit"] == 0):
+            e["exit"] = code
     for m in re.finditer(r"MUTANT (C\d+): BUILD FAILED", out):
         det[m.group(1)] = {"exit": 3, "note": "harness build failed against the patched tree"}
     meta["detection"] = det
